@@ -52,7 +52,12 @@ type jobOut struct {
 	Fails    []jobFail      `json:"fails,omitempty"`
 	Outcomes map[string]int `json:"outcomes"`
 	Sample   any            `json:"sample,omitempty"`
+	Capped   int            `json:"capped,omitempty"` // cases not run because the job had already collected maxFailsPerJob failures
 }
+
+// a failing execution may cost the hang detector's wait; a tree that is broken for a whole class of URLs
+// would otherwise keep the check busy for hours
+const maxFailsPerJob = 12
 
 func outcomeKey(c e2eCase, r e2eResult) string {
 	k := fmt.Sprintf("%s n=%d: %s", c.Flow, c.N, strings.Join(r.Shapes, " | "))
@@ -89,6 +94,10 @@ func worker(raw json.RawMessage) any {
 		workerCases, workerThorough = newE2ESpace(j.Thorough), j.Thorough
 	}
 	for i := j.From; i < j.To && i < workerCases.Len(); i++ {
+		if len(out.Fails) >= maxFailsPerJob {
+			out.Capped = min(j.To, workerCases.Len()) - i
+			break
+		}
 		c := workerCases.At(i)
 		r := runE2E(c)
 		out.Evals++
@@ -416,6 +425,9 @@ func partA(run *evid.Run) {
 				run.Fatal("worker output: %v: %s", err, r.Output)
 			}
 			run.Eval(int64(o.Evals))
+			if o.Capped > 0 {
+				run.Cap(fmt.Sprintf("a job stopped after %d violations: %d cases not run", maxFailsPerJob, o.Capped))
+			}
 			steps += o.Steps
 			lines += o.Lines
 			linesUI += o.LinesUI
